@@ -277,17 +277,17 @@ def run_mir(tier, d, stats):
     tally = Tally()
     builds = QUICK_BUILDS if quick else THOROUGH_BUILDS
     gen = []
-    n = 120 if quick else 2400
+    n = 200 if quick else 3200
     for prof, share in (("loops", 0.35), ("mixed", 0.3), ("closures", 0.15), ("enums", 0.2)):
         gen.append((f"gen:{prof}", pc.generated_programs(d, max(1, int(n * share)), SEED + 7, prof)))
     repo = pc.repo_programs()[1:]
     if quick:
         # one run of TLC: the hand-written corpora (every rule of the evaluator must be exercised there),
-        # generated programs, every third repository test wrapper under the builds that change the most
+        # generated programs, every second repository test wrapper under the builds that change the most
         check_batch(tally, d, "quick",
                     [("corpus", corpus_programs(), builds, 400_000, True)]
                     + [(src, progs, builds, 200_000, False) for src, progs in gen]
-                    + [("repo", repo[::3], ["raw", "pass:ccp+loop", "pass:inlining+ccp", "opt:0", "opt:31"], 60_000, False)],
+                    + [("repo", repo[::2], ["raw", "pass:ccp+loop", "pass:inlining+ccp", "opt:0", "opt:31"], 100_000, False)],
                     chunks=2)
     else:
         check_batch(tally, d, "corpus", [("corpus", corpus_programs(), builds, 3_000_000, True)], chunks=4)
@@ -311,7 +311,9 @@ def run_mir(tier, d, stats):
         "mir_statements_executed": tally.nodes,
         "mir_statements_per_second_all_workers": int(tally.nodes / tally.tlc_wall) if tally.tlc_wall else 0,
         "mir_tlc_wall_s": round(tally.tlc_wall, 1), "mir_tlc_states": tally.tlc_states,
-        "mir_raw_run_vs_back_ends": tally.drift, "mir_drift": len(tally.drifts),
+        "mir_raw_run_vs_back_ends": tally.drift,
+        "mir_drift": {"wasm": sum(1 for _, k, _ in tally.drifts if k == "wasm"),
+                      "ts_only": sum(1 for _, k, v in tally.drifts if k == "ts" and v["wasm"] != "differs")},
         "mir_by_source": tally.by_source,
         "mir_rules_exercised_by_corpus": rules,
         "mir_samples": tally.samples,
